@@ -6,17 +6,18 @@ import json, os, shutil, subprocess, sys, time
 def sh(cmd, cwd=None, timeout=3000):
     p = subprocess.run(cmd, shell=True, cwd=cwd, stdout=subprocess.PIPE, stderr=subprocess.STDOUT, timeout=timeout)
     return p.returncode, p.stdout.decode('latin-1')
-ids = [x.upper() for x in sys.argv[1:]] or sorted(os.listdir('/verif/seeded'))
+ids = [x[:3].upper() + x[3:] for x in sys.argv[1:]] or sorted(os.listdir('/verif/seeded'))
 rc, o = sh('git -C /repo status --porcelain --untracked-files=no')
 if o.strip():
     sys.exit('/repo has local modifications; not touching it')
 missed = 0
-for PID in ids:
-    dst = '/verif/seeded/%s' % PID
+for DIR in ids:
+    PID = DIR[:3]
+    dst = '/verif/seeded/%s' % DIR
     meta = json.load(open(dst + '/meta.json'))
     rc, o = sh('git -C /repo apply --check %s/patch.diff' % dst)
     if rc != 0:
-        print(PID, 'patch no longer applies to /repo HEAD:', o.strip()[:200]); meta['recheck'] = 'patch does not apply'; missed += 1
+        print(DIR, 'patch no longer applies to /repo HEAD:', o.strip()[:200]); meta['recheck'] = 'patch does not apply'; missed += 1
     else:
         sh('git -C /repo apply %s/patch.diff' % dst)
         try:
@@ -36,6 +37,6 @@ for PID in ids:
                                summary=last[0] if last else '', wall_s=round(time.time() - t), concrete_input=concrete)
         meta['caught'] = caught
         missed += 0 if caught else 1
-        print(PID, 'caught' if caught else 'MISSED', 'concrete-input' if concrete else ('no-failing-input-found' if caught else ''), (last[0] if last else '')[:160])
+        print(DIR, 'caught' if caught else 'MISSED', 'concrete-input' if concrete else ('no-failing-input-found' if caught else ''), (last[0] if last else '')[:160])
     json.dump(meta, open(dst + '/meta.json', 'w'), indent=1)
 sys.exit(1 if missed else 0)
